@@ -1,23 +1,10 @@
-(* Witnesses for the known findings of C08 (known_findings/C08.json).  Each statement is conditional on the flag computed
-   from the code translated from /repo on this run: while the defect is present the flag is `true` and the theorem exhibits
-   an accepted value outside the declared bounds; after a repair the flag is `false` and Props/C08.v:*_full_if_fixed apply. *)
+(* Witnesses for the known findings of C08 (known_findings/C08.json): float NaN, str max_len = 0.  Each statement is
+   conditional on a flag computed from the code translated from /repo on this run (true today); after a repair the flag is
+   `false` and the unrestricted statement applies.  The int/float zero-bound defect was repaired (2abc421): its witnesses are gone
+   and Props/C08.v now proves the unrestricted C08_int / C08_float. *)
 Require Import PonyV.Base.PyBase PonyV.Model.C08Base PonyV.Gen.C08Conv PonyV.Model.C08Spec PonyV.Proofs.C08IntInit PonyV.Proofs.C08Proofs.
 (* C08Corr: the checkers of the correspondence run; required here so that they are rebuilt with the cone whenever Gen changes *)
 Require PonyV.Model.C08Corr.
-
-(* Optional(int, min=0) accepts -5 / Optional(int, max=0) accepts 5 *)
-Theorem C08_int_zero_bound_refuted :
-  int_zero_bound_ignored = true ->
-  exists d v, decl_ok true d /\ accepts_int true d v = true /\ ~ in_bounds d v.
-Proof. exact int_zero_bound_refuted. Qed.
-Print Assumptions C08_int_zero_bound_refuted.
-
-(* Optional(float, min=0) accepts -1.0 / Optional(float, max=0) accepts 1.0 *)
-Theorem C08_float_zero_bound_refuted :
-  real_zero_bound_ignored = true ->
-  exists mn mx v, v <> NNan /\ not_nan_opt mn /\ not_nan_opt mx /\ accepts_real mn mx v = true /\ ~ num_in_bounds mn mx v.
-Proof. exact real_zero_bound_refuted. Qed.
-Print Assumptions C08_float_zero_bound_refuted.
 
 (* Optional(float, min=1, max=2) accepts NaN *)
 Theorem C08_float_nan_refuted :
